@@ -41,6 +41,8 @@ def compile_witness(ctx, name, meta):
 
 def _compile(name, meta, cfg, fdir):
     rmeta = os.path.join(fdir, "libspecs.rmeta")
+    if not os.path.exists(rmeta):
+        raise extract.InfraError("the crate metadata %s the witnesses are compiled against has disappeared (cache pruned by a concurrent run?)" % rmeta)
     deps = os.path.join(extract.CACHE, "target", cfg, "debug", "deps")
     out = os.path.join(extract.CACHE, "witness-out")
     os.makedirs(out, exist_ok=True)
